@@ -54,6 +54,7 @@ type Engine struct {
 	Obls        []*Obligation
 	instCount   map[string]int
 	dry         int // >0: discard everything (loop modified-set discovery)
+	freshSince  string // clock GvcFresh is relative to while a callee's post-condition is evaluated at a call site
 	noOblig     int // >0: evaluate without emitting obligations (spec evaluation)
 	nGlobals    int
 	noForallAlt int
@@ -1047,6 +1048,30 @@ func (e *Engine) typeTest(x T, t types.Type) T {
 		return tAnd(tNot(tEq(x, tIfNil)), T{fmt.Sprintf("(%s (dtyp %s))", pred, x.S), sBool})
 	}
 	id := e.typeID(t)
+	if os.Getenv("GVC_DTYPTEST") == "" {
+		// Type identifiers are per Go type and a Go type is always boxed with the same constructor
+		// (makeIface): the test names the constructor, so that a successful test also tells which
+		// payload selector is meaningful (without it `x.(*T)` on a symbolic interface value could
+		// be satisfied by a string-kinded value carrying *T's identifier, whose iref is junk).
+		tester, sel := "if_ref", "ityp_r"
+		if _, isS := isStruct(t); !isS {
+			switch e.sortOf(t) {
+			case sStr:
+				tester, sel = "if_str", "ityp_s"
+			case sInt:
+				tester, sel = "if_int", "ityp_i"
+			case sBool:
+				tester, sel = "if_bool", "ityp_b"
+			case sBV:
+				tester, sel = "if_bv", "ityp_v"
+			case sSlice:
+				tester, sel = "if_slice", "ityp_l"
+			case sFunc:
+				tester, sel = "if_func", "ityp_f"
+			}
+		}
+		return T{fmt.Sprintf("(and ((_ is %s) %s) (= (%s %s) %d))", tester, x.S, sel, x.S, id), sBool}
+	}
 	return T{fmt.Sprintf("(= (dtyp %s) %d)", x.S, id), sBool}
 }
 
